@@ -55,6 +55,14 @@ PRIMARY = [
      [('ConflictingTypesInAssignment', 14, 'h'), ('ArgumentTypeMismatch', 16, 'h')]),
     ('fn f()\n{\n\tvar x: i32 = 1;\n\tx = undefined_function(x);\n\tx =\n\t\tundefined_variable;\n\tgoto nowhere;\n}\n',
      [('UndefinedFunction', 4, 'undefined_function'), ('UndefinedVariable', 6, 'undefined_variable'), ('UndefinedLabel', 7, 'nowhere')]),
+    # a chain of one operator over several lines: the operator whose operands differ is the LAST one
+    ('fn f(a: u8, b: u8, c: u16)\n{\n\tvar r = a\n\t\t| b\n\t\t| c;\n\tvar s = a\n\t\t& b\n\t\t& b\n\t\t& c;\n}\n',
+     [('MismatchedOperandTypes', 5, '| c', 'location_of_op')]),
+    # a type that is not part of the external ABI, directly, behind one and behind two pointers: the type is what is located
+    ('extern fn f(\n\tp: &bool,\n\tq: &&u128,\n\tr: bool\n);\n',
+     [('TypeNotAllowedInExtern', 2, ': &bool', 'location_of_type')]),
+    ('extern fn g(\n\tq: &&u128\n);\n', [('TypeNotAllowedInExtern', 2, ': &&u128', 'location_of_type')]),
+    ('extern fn h(\n\tr: bool\n) -> &u128;\n', [('TypeNotAllowedInExtern', 2, ': bool', 'location_of_type')]),
 ]
 
 
@@ -65,11 +73,13 @@ def check_primary(src, expected, r):
         dump = bytes.fromhex(r['result'].get('dump', '')).decode('utf-8', 'replace')
     except ValueError:
         return None
-    for variant, line, text in expected:
+    for entry in expected:
+        variant, line, text = entry[:3]
+        field = entry[3] if len(entry) > 3 else 'location'
         i = dump.find(variant + ' {')
         if i < 0:
             return 'the diagnostic %s is not reported' % variant
-        j = dump.find(' location: Location {', i)
+        j = dump.find(' %s: Location {' % field, i)
         m = LOC.search(dump, j) if j >= 0 else None
         if not m:
             return 'the diagnostic %s has no primary location' % variant
